@@ -102,7 +102,10 @@ def run(tier="quick", seed=0, jobs=16):
                                                    "rockit_vs_model": bad[:3]}]})
         orb = r.get("objective_readback")
         if not bad and orb and all(abs(v) < engine.BIG for v in orb) and not engine.close(orb[0], orb[1], scale=abs(orb[1])):
-            res["disagreements"].append({"property": "C05", "case": mc, "points": pts, "finding_key": None, "_multi": True,
+            # clones of one template share their symbols: a master-level expression cannot tell their values apart
+            shared = mc.get("template") is not None and len(mc.get("stages", [])) >= 2
+            res["disagreements"].append({"property": "C05", "case": mc, "points": pts, "_multi": True,
+                                         "finding_key": "F45-objective-readback-clones-shared-symbols" if shared else None,
                                          "what": [{"what": "multi-stage OCP: sol.value(ocp.objective) is not the cost the solver minimised",
                                                    "sol.value(ocp.objective)": orb[0], "opti.f at the solution": orb[1]}]})
     res["evaluations"] += len(cps)
